@@ -488,8 +488,19 @@ func (x *fx) loopHeader(li *loopInfo, phiEntry map[*ssa.Phi]*Val) {
 			keptLocals = append(keptLocals, keptLocal{r, storedFields[a]})
 		}
 	}
+	x.initKeepAll()
+	keepRegs := x.keepAllRegs
 	h.frame = func(n, nv, ov string) {
 		baseFrame(n, nv, ov)
+		// a memory the loop body never stores to directly can only be changed by
+		// the unmodelled callees inside the loop: the keepsall assumption applies
+		if !li.writes[n] {
+			for _, r := range keepRegs {
+				if r.mem == n {
+					x.assume(x.keepRegion(r, nv, ov))
+				}
+			}
+		}
 		if !strings.HasPrefix(n, "$") {
 			for _, k := range keptLocals {
 				if k.fields[n] {
